@@ -88,6 +88,10 @@ def main (args : List String) : IO UInt32 := do
     let txt ← IO.FS.readFile path
     for l in Driver.runItp (txt.splitOn "\n") do IO.println l
     return 0
+  | ["itp2", path] =>
+    let txt ← IO.FS.readFile path
+    for l in Driver.runItp2 (txt.splitOn "\n") do IO.println l
+    return 0
   | ["fk", path] =>
     let txt ← IO.FS.readFile path
     for l in Driver.runFk (txt.splitOn "\n") do IO.println l
